@@ -3,9 +3,9 @@
 come out with all tables identical to the pristine ones.  usage: adversarial.py <rust2coq.py> <workdir>"""
 import sys, os, json, shutil, subprocess
 tr, work = sys.argv[1:3]
-REPO0 = '/tmp/ag/tol/repo0'
+REPO0 = '/tmp/ag/tol2/repo0'
 DE, SER, PDE, PSER, MOD, IMM = ('src/io/slippi/de.rs', 'src/io/slippi/ser.rs', 'src/io/peppi/de.rs', 'src/io/peppi/ser.rs', 'src/io/slippi/mod.rs', 'src/frame/immutable/mod.rs')
-B = '/tmp/ag/tol/tools/selftest/benign/'
+B = '/tmp/ag/tol2/tools/selftest/benign/'
 def patch(nn):
     return ('PATCH', B + nn + '/patch.diff')
 HELPER_RET = ('\tstate.expect_id(id)?;\n\tif state.game.frames.item.is_none() {', '\tstate.expect_id(id)?;\n\tif id < -123 {\n\t\treturn Ok(());\n\t}\n\tif state.game.frames.item.is_none() {')
